@@ -138,4 +138,6 @@ class SetFieldTransformation(PreprocessingTransformation):
 
     def apply(self, rule: SigmaRule | SigmaCorrelationRule) -> None:
         super().apply(rule)
-        rule.fields = self.fields
+        rule.fields = list(
+            self.fields
+        )  # each rule gets its own list, else later changes would alter the configuration
